@@ -16,6 +16,7 @@ import (
 	"path/filepath"
 	"reflect"
 	"regexp"
+	"sort"
 	"strconv"
 	"strings"
 	"text/template"
@@ -327,6 +328,10 @@ func (c *RootConfig) Initialize(ctx context.Context) error {
 		}
 	}
 
+	// Map iteration order is random. Visit descendants before their ancestors
+	// (a package path sorts after all of its prefixes) so that a sub-package
+	// always inherits from its nearest recursive ancestor.
+	sort.Sort(sort.Reverse(sort.StringSlice(recursivePackages)))
 	for _, recursivePackageName := range recursivePackages {
 		pkgLog := log.With().Str(logging.LogKeyPackagePath, recursivePackageName).Logger()
 		pkgCtx := pkgLog.WithContext(ctx)
